@@ -59,7 +59,7 @@ func scenarios() []scenario {
 		{"conserve/report.Receiver", "report", conserveReportReceiver},
 		{"uar/nack.Responder", "nack", func(scale int) error { return uarNackResponder(scale, false) }},
 		{"uar/nack.Responder+rtx", "nack", func(scale int) error { return uarNackResponder(scale, true) }},
-	}, reenterScenarios()...)
+	}, append(reenterScenarios(), isolateScenarios()...)...)
 }
 
 var reportMu sync.Mutex
